@@ -335,10 +335,18 @@ def search_groups(pattern, subject, ident=None) -> Optional[Tuple[int, int, Dict
     """leftmost match: (start, end, capture spans) in symbol positions, None if there is none"""
     ast_, s, m = _prep(pattern, subject, ident)
     for start in range(len(s) + 1):
+        tainted_ends = set()
         for e, c in m.ends(ast_, start):
             if -1 in c:
-                raise Undecided("the first match in priority order exists only under an assumption about a token's text")
+                tainted_ends.add(e)      # exists only if a token's text happens to fit: remember where it would end
+                if len(tainted_ends) > 64:
+                    break
+                continue
+            if tainted_ends - {e}:
+                raise Undecided("a match that exists only under an assumption about a token's text would end elsewhere")
             return (start, e, c)
+        if tainted_ends:
+            raise Undecided("at this start only matches that depend on an assumption about a token's text exist")
     return None
 
 
